@@ -12,7 +12,8 @@ import json, os
 import vlib, vtables
 
 WITNESSES = ["W_NoAccept", "W_NoOnlyChain", "W_NoOnlyTime", "W_NoOnlyUsage", "W_NoOnlyPin", "W_NoOnlyName", "W_NoStricter",
-             "W_NoSeveralAccept", "W_NoStreamAccept", "W_NoStreamOnlyName", "W_NoColonSrcAccept", "W_NoColonPrefixRefused"]
+             "W_NoSeveralAccept", "W_NoStreamAccept", "W_NoStreamOnlyName", "W_NoColonSrcAccept", "W_NoColonPrefixRefused",
+             "W_NoPinnedThenUnpinned", "W_NoUnpinnedThenPinned", "W_NoTwoAlgs"]
 CONDS = ["chain", "time", "usage", "pin", "name"]
 
 
@@ -28,12 +29,18 @@ def run(tier, seed, replay=None):
     if cs.violated != "CodeWithinProp":
         raise vlib.Inconclusive("the model with KF_ColonSplit = TRUE does not violate CodeWithinProp (violated=%s)" % cs.violated)
     wit.append("CodeWithinProp@KF_ColonSplit")
+    # a verifier instance that remembers the first certificate's digest must be rejected by the model
+    dc = vlib.tlc("TLSVerify", "TLSVerify_digestcache.cfg", wd, workers=1, timeout=600)
+    if dc.violated != "HistoryIndependent":
+        raise vlib.Inconclusive("the model with KF_DigestCachedAcrossCalls = TRUE does not violate HistoryIndependent (violated=%s)" % dc.violated)
+    wit.append("HistoryIndependent@KF_DigestCachedAcrossCalls")
     vectors = os.path.join(r.dir, "vectors.ndjson")
     recs = vlib.read_ndjson(vectors)
     if len(recs) != r.distinct:
         raise vlib.Inconclusive("vector file has %d lines but TLC found %d distinct states" % (len(recs), r.distinct))
     ntable = sum(1 for x in recs if x["fam"] == "table")
-    nstream = len(recs) - ntable
+    nseq = sum(1 for x in recs if x["fam"] == "seq")
+    nstream = len(recs) - ntable - nseq
     single = {c: sum(1 for x in recs if x["fam"] == "table" and x["only"] == c) for c in CONDS}
     if min(single.values()) == 0:
         raise vlib.Inconclusive("no single-failure vector for some condition: %s" % single)
@@ -41,7 +48,7 @@ def run(tier, seed, replay=None):
         vec, _ = vtables.replay_vector(replay)
         vectors = os.path.join(wd, "replay.ndjson")
         vlib.write_ndjson(vectors, [vec])
-        recs, ntable, nstream = [vec], int(vec["fam"] == "table"), int(vec["fam"] == "stream")
+        recs, ntable, nstream, nseq = [vec], int(vec["fam"] == "table"), int(vec["fam"] == "stream"), int(vec["fam"] == "seq")
     vt = vlib.build_harness("vtab")
     mesh = 0 if (tier != "quick" or replay) else 64
     extra = 400 if tier == "quick" else 6000
@@ -51,9 +58,9 @@ def run(tier, seed, replay=None):
         raise vlib.Inconclusive("; ".join(res["inconclusive"][:5]))
     c = res["counters"]
     want_stream = nstream if mesh == 0 else min(mesh, nstream)
-    if c.get("vectors_table", 0) != ntable or c.get("vectors_stream", 0) != want_stream:
-        raise vlib.Inconclusive("harness evaluated %d/%d table and %d/%d stream vectors" %
-                                (c.get("vectors_table", 0), ntable, c.get("vectors_stream", 0), want_stream))
+    if c.get("vectors_table", 0) != ntable or c.get("vectors_stream", 0) != want_stream or c.get("vectors_seq", 0) != nseq:
+        raise vlib.Inconclusive("harness evaluated %d/%d table, %d/%d stream and %d/%d sequence vectors" %
+                                (c.get("vectors_table", 0), ntable, c.get("vectors_stream", 0), want_stream, c.get("vectors_seq", 0), nseq))
     for viol in res["violations"]:
         v.violation(viol["sig"], viol["what"], viol["replay"])
     if not replay:
@@ -62,6 +69,10 @@ def run(tier, seed, replay=None):
         for layer in ("rvf", "installed-client", "installed-server", "handshake-client", "handshake-server", "mesh"):
             if c.get("accept_" + layer, 0) == 0 and not res["violations"]:
                 raise vlib.Inconclusive("layer %s accepted nothing: vacuous run" % layer)
+        for layer in ("rvf-seq", "installed-client-seq", "installed-server-seq", "handshake-client-seq", "handshake-server-seq"):
+            for k in ("pinned_then_unpinned_refused_", "unpinned_then_pinned_accepted_"):
+                if c.get(k + layer, 0) == 0 and not res["violations"]:
+                    raise vlib.Inconclusive("no %s%s observation: the history-independence part is vacuous" % (k, layer))
         for cond in CONDS:
             if c.get("only_%s_rvf" % cond, 0) == 0:
                 raise vlib.Inconclusive("condition %s was never the only reason for a refusal" % cond)
@@ -70,14 +81,18 @@ def run(tier, seed, replay=None):
         "states": r.distinct, "transitions": r.generated, "traces_validated_against_impl": 0,
         "evaluations": res["evaluations"], "distinct_nontrivial": res["distinct"],
         "rule": "TLC enumerates every vector of TLSVerify.tla (%s): issuer x validity x usage x name set x pin list x role x name mode, plus the "
-                "stream-listener family (issuer x validity x usage x source id x certificate name kind). Every table vector is concretised "
+                "stream-listener family (issuer x validity x usage x source id x certificate name kind) and the history family (role x mode x pin list x every "
+                "sequence of 1..3 certificates out of pinned / unpinned-but-otherwise-identical / wrong-chain presented to ONE long-lived instance). Every table vector is concretised "
                 "into real certificates (one per 'other name' variant: unrelated/extended/trailing space/case variant/prefix; two SAN encoders: "
                 "utils.MakeReceptorSAN and an independent DER encoder) and judged by the real ReceptorVerifyFunc, by the verifier installed through "
                 "Prepare*Config+GetClientTLSConfig, and (all vectors with at most one failing condition plus a seeded sample) by a crypto/tls "
-                "handshake; stream vectors are dialled on a real mesh. distinct = distinct (vector, name variant, encoder) triples evaluated "
-                "plus stream vectors dialled" % cfg,
+                "handshake; stream vectors are dialled on a real mesh; every history vector is played on one ReceptorVerifyFunc instance, on one configuration from "
+                "Prepare*Config (+GetClientTLSConfig / GetServerTLSConfig per connection) and through handshakes sharing one configuration, each call compared with the table. distinct = distinct (vector, name variant, encoder) triples evaluated "
+                "plus stream vectors dialled plus history vectors" % cfg,
         "samples": res["samples"][:10], "exhaustive": True,
-        "vectors": len(recs), "vectors_table": ntable, "vectors_stream": nstream, "stream_vectors_dialled": c.get("vectors_stream", 0),
+        "vectors": len(recs), "vectors_table": ntable, "vectors_stream": nstream, "vectors_seq": nseq, "seq_calls": c.get("seq_calls", 0),
+        "history_observations": {k: n for k, n in c.items() if k.startswith("pinned_then_unpinned_refused_") or k.startswith("unpinned_then_pinned_accepted_")},
+        "stream_vectors_dialled": c.get("vectors_stream", 0),
         "single_failure_vectors": single,
         "single_failure_refusals_observed": {l: {cd: c.get("only_%s_%s" % (cd, l), 0) for cd in CONDS} for l in layers},
         "accepts_observed": {l: c.get("accept_" + l, 0) for l in layers},
